@@ -588,6 +588,72 @@ def constructor_clauses(ck, S, ET, rng):
                                  detail=None if rv is None else rv.attrib)
 
 
+def member_length_clauses(ck, S, ET, rng):
+    """(array length=PARAM) on return values and parameters of methods, of virtual methods and of the function-pointer members of
+    the class structure behind them: in EVERY element that describes the callable - method, virtual method, the callback inside the
+    class structure's field, a static function moved into its record - the length index names the annotated parameter of THAT
+    element's parameter list (the instance is a parameter of the callback in the field, not of the method)"""
+    syms = world_symbols()
+    selfp = lambda: S.param('self', S.ptr(S.td('FooObj')))
+    names = rng.sample(['get_items', 'list_names', 'peek_values'], rng.randint(1, 3))
+    kids = [S.FS(S.CSYMBOL_TYPE_MEMBER, 'parent_class', base_type=S.td('GObjectClass'), line=401)]
+    comments = []
+    line = 3000
+    expect = []
+    for k, nm in enumerate(names):
+        extra = [S.param('flags%d' % j, S.td('gint')) for j in range(rng.randint(0, 2))]
+        on_ret = rng.random() < 0.6
+        if on_ret:
+            ps = [selfp()] + extra + [S.param('n_items', S.ptr(S.td('gint')))]
+            ret = S.ptr(S.td('gint'))
+            doc = ' * @n_items: (out): the number of items\n *\n * Returns: (array length=n_items) (transfer none): the items\n'
+        else:
+            ps = [selfp()] + extra + [S.param('items', S.ptr(S.td('gint'))), S.param('n_items', S.td('gint'))]
+            ret = S.VOID
+            doc = ' * @items: (array length=n_items): the items\n * @n_items: the number of items\n'
+        rng.random()
+        kids.append(S.FS(S.CSYMBOL_TYPE_MEMBER, nm, base_type=S.ptr(S.FT(S.CTYPE_FUNCTION, base_type=ret, child_list=list(ps))), line=402 + k))
+        syms.append(S.func('foo_obj_' + nm, ret, list(ps), line=420 + k))
+        for ident in ('foo_obj_' + nm, 'FooObjClass::' + nm):        # the method's block and the virtual method's own block
+            comments.append(('/**\n * %s:\n * @self: the object\n%s%s */' % (ident, ''.join(' * @flags%d: flags\n' % j for j in range(len(extra))), doc),
+                             '/src/foo.c', line))
+            line += 20
+        expect.append(nm)
+    # a static function of a record (no instance): moved into the record, its copy at the top level stays behind as moved-to
+    syms.append(S.func('foo_rec_list_all', S.ptr(S.td('gint')), [S.param('n_items', S.ptr(S.td('gint')))], line=440))
+    comments.append(('/**\n * foo_rec_list_all:\n * @n_items: (out): the number of items\n *\n * Returns: (array length=n_items) (transfer none): all\n */',
+                     '/src/foo.c', line))
+    syms += [S.FS(S.CSYMBOL_TYPE_TYPEDEF, 'FooObjClass', base_type=S.FT(S.CTYPE_STRUCT, '_FooObjClass'), line=400),
+             S.FS(S.CSYMBOL_TYPE_STRUCT, '_FooObjClass', base_type=S.FT(S.CTYPE_STRUCT, '_FooObjClass', child_list=kids), line=401)]
+    case = dict(comments=[c[0] for c in comments])
+    try:
+        r = S.run(syms, comments=comments, includes=['GLib', 'GObject', 'Gio'], dump=ET.ElementTree(ET.fromstring(DUMP)), warnings=False)
+    except (Exception, SystemExit) as e:      # noqa
+        ck.failing_input('the scanner fails on annotated methods and virtual methods: %r' % (e,), case)
+        return
+    ck.count_case(dict(members=expect), kind='member-lengths')
+    seen = 0
+    for el in r.root.iter():
+        if el.tag not in (S.CORE + 'method', S.CORE + 'virtual-method', S.CORE + 'callback', S.CORE + 'function', S.CORE + 'constructor'):
+            continue
+        pel = el.find(S.CORE + 'parameters')
+        plist = [] if pel is None else pel.findall(S.CORE + 'parameter')
+        holders = [el.find(S.CORE + 'return-value')] + plist
+        for h in holders:
+            arr = None if h is None else h.find(S.CORE + 'array')
+            if arr is None or arr.get('length') is None:
+                continue
+            seen += 1
+            k = int(arr.get('length'))
+            if not (0 <= k < len(plist)) or plist[k].get('name') != 'n_items':
+                ck.failing_input('the length index of an (array length=n_items) annotation does not name n_items in the parameter list of '
+                                 'the element that carries it', dict(case, element=el.tag.split('}')[1], name=el.get('name'),
+                                                                     moved_to=el.get('moved-to')),
+                                 detail=dict(length=arr.get('length'), parameters=[p.get('name') for p in plist]))
+    if seen < len(expect):
+        ck.tie_broken('harness', 'the (array length=) annotations of the member scenario do not show in the GIR: the scenario tests nothing', case)
+
+
 def main(tier, seed):
     ck = Check('C01', tier, seed)
     ck.assumptions += ['declarations are given as SourceSymbol trees (the C lexer cannot be built here); annotations go through the '
@@ -603,6 +669,7 @@ def main(tier, seed):
     nb = 10 if tier == 'quick' else 150
     for _ in range(6 if tier == 'quick' else 60):
         constructor_clauses(ck, S, ET, rng)
+        member_length_clauses(ck, S, ET, random.Random(seed * 31 + 5))
     cases = []
     for b in range(nb):
         batch = [gen_callable(rng, i, cbtype=(i % 5 == 4)) for i in range(len(SPECIAL) if b == 0 else 0, 40)]
